@@ -12,6 +12,18 @@ TRUST = ("Trusted: rustc nightly front end/MIR construction, the sfacts fact ext
 
 # id -> (technique, text)
 CLAIMED = {
+    "C01": ("numeric-operator discipline over MIR (release semantics) + guarded-construction and guard rules over typed HIR",
+            "Decides the overflow-safety shape of the integer evaluator: every raw wrapping operator and narrowing/sign-changing cast on machine integers inside the evaluator scope is on a closed, reasoned table; every checked_* has a data-dependent fallback; unchecked fixnum builders are the listed ones; the 56-bit range constants fit the encoding; every functor of the statement is evaluable in both evaluators; every integer division sits behind a zero-divisor test; non-commutative operations keep operand order in every representation pair. Does not decide that an implementation computes the right number."),
+    "C02": ("classify-before-return rule (RF3) over typed HIR + guard table + operand-order rule",
+            "Decides that no float-producing operation of the arithmetic modules escapes the finiteness classifier, that the classifier maps infinite/NaN to the two evaluation errors, that the undefined/zero-divisor guards named in the statement precede the operations they protect, and that Number/Number keeps operand order in all 16 representation pairs. Numerical values are not decided."),
+    "C07": ("exhaustiveness + sibling agreement of Call/Execute/Default twins over typed HIR; or-frame effect table",
+            "Decides two machine-level necessary conditions: every instruction has exactly one handler and the twins of each builtin family run the same work, differing only in continuation (p += 1 vs p = cp) and inference counting; choice-point frames are written and restored field for field. The compiler half of the property (register allocation, variable classification, disjunction chunking) is not decided."),
+    "C09": ("sibling agreement of liveness tests, must-pass-through of clock ticks (MIR CFG), save/restore ordering of the call generation (typed HIR)",
+            "Decides the structure of the logical-update-view protocol: all liveness tests are birth < cc && Finite(cc) <= death; every assert/retract path ticks the clock before returning; stamps come from the clock; cc is read from the clock only on a first call, saved with the choice point, and reloaded from it before the first liveness test on backtracking. Answer sequences are not decided."),
+    "C10": ("who-may-call (single binding hook) over call facts, control dependence in bind_with_occurs_check, wiring tables",
+            "Decides that under the occurs-check unifiers no binding bypasses the check (the generic unifier binds only through the overridable hook, never through the raw binders or direct cell writes), that the check's flag controls the bind and is reported, that the three occurs_check modes are wired to the three unifiers, and that every per-shape helper has the variable arms. The worklist algorithm is not decided."),
+    "C11": ("write/trail pairing, trail-tag round-trip, condition table, or-frame effect table over typed HIR",
+            "Decides that every cell write in a trailing function is paired with a trail call of the matching kind, that the trail conditions compare with hb/b strictly, that every trail entry tag pushed is undone by an arm restoring the matching self-reference in reverse order, that bb_b_put distinguishes its three states, who may call unwind_trail, and that choice points are saved/restored field for field. Which goals create choice points is not decided."),
     "C03": ("table agreement between the two evaluators over typed HIR (custom rustc driver)",
             "Decides completely the clause 'both evaluators are the same function of their operands': per evaluable functor the compiled instruction handler and the run-time tree walker reach the same implementation functions with the same constant arguments; key sets coincide; operand fetch is shared. Correctness of the shared implementations is C01/C02."),
     "C04": ("oracle-table and sibling-agreement rules over typed HIR (custom rustc driver)",
